@@ -27,6 +27,8 @@ LOGS = {
     "unicode": ["Größe µm ✓ 漢"],
     "long": ["x" * 60 + "µ" * 45 + "END"],       # 153 bytes > 100
     "one": "a single string",
+    # white space is content: trailing blanks / tab, blank-only line, indent
+    "padded": ["col A    ", "tab\t", "   ", "  indented", "ideographic\u3000"],
 }
 META = {
     "m0": None,   # complete metadata (filled in fresh())
@@ -164,6 +166,7 @@ class WriterDriver(explore.Driver):
             return out
         out += [(["LOG", "la", "short"], 0), (["LOG", "la", "unicode"], 0),
                 (["LOG", "la", "long"], 1), (["LOG", "lb", "one"], 0),
+                (["LOG", "lb", "padded"], 1),
                 (["TABLE", "ta", "rec"], 0), (["TABLE", "ta", "dict"], 1),
                 (["TABLE", "tb", "mixed"], 0),
                 (["META", "m0"], 0), (["META", "m1"], 0), (["META", "m2"], 0),
